@@ -266,10 +266,41 @@ func runCase(r *hx.Run, c hx.Case) {
 		}
 	case "render":
 		// replay of the model-side line of a mix case: <desc> inf mix <msgenc> <parts> <embeds> <attach>
-		if len(c.Args) >= 7 && c.Args[2] == "mix" {
+		if len(c.Args) >= 6 && c.Args[2] == "ctype" {
+			runCase(r, hx.Case{ID: c.ID, Kind: "ctype", Args: c.Args[3:6]})
+		} else if len(c.Args) >= 7 && c.Args[2] == "mix" {
 			runMix(r, hx.Case{ID: strings.TrimSuffix(c.ID, "-reenc"), Kind: "mix", Args: c.Args[3:7]})
 		} else {
 			r.Fail(c.ID, "bad-replay", "unknown render case")
+		}
+	case "ctype":
+		// a single-part message whose content type has parameters of its own: its Content-Type / Content-Description
+		// fields sit in the top-level header section and must be folded like every other field there
+		ct := string(hx.UnHex(c.Args[0]))
+		spec := bytex.MsgSpec{From: "from@x.test", To: []string{"to@y.test"}, Enc: c.Args[1], Gen: []bytex.KV{{K: "Subject", V: []string{"ctype"}}},
+			Parts: []bytex.PartSpec{{CType: ct, Desc: string(hx.UnHex(c.Args[2])), Prod: bytex.Producer{Chunks: [][]byte{[]byte("body text\r\n")}}}}}
+		bytex.ResetRand()
+		m, err := spec.Build()
+		if err != nil {
+			r.Fail(c.ID, "harness-build", err.Error())
+			return
+		}
+		desc := bytex.Describe(m, &spec, [3]string{}, bytex.DrawnBoundaries(0, 4))
+		sink := &bytex.Sink{K: -1}
+		_, werr, pan := bytex.SafeWriteTo(m, sink)
+		if pan != nil || werr != nil {
+			r.Fail(c.ID, "render-failed", fmt.Sprint(pan, werr))
+			return
+		}
+		out := sink.Accepted
+		r.Add(hx.Case{ID: c.ID, Kind: "render", Args: append([]string{desc, "inf", "ctype"}, c.Args...)}, fmt.Sprintf("ok %d %s", len(out), hx.Hex(out)), true)
+		hdr, _, ok := splitHeaderBody(out)
+		if !ok {
+			r.Fail(c.ID, "no-header-end", "no empty line in output")
+			return
+		}
+		if cl, d := checkLines(hdr, 78, true); cl != "" {
+			r.Fail(c.ID, "ctype-hdr-"+cl, d)
 		}
 	case "mix":
 		// a multipart message whose parts and files use different transfer encodings in a given order (the writer's
@@ -571,6 +602,14 @@ func Run(r *hx.Run, replay []hx.Case) {
 				continue
 			}
 			runCase(r, hx.Case{ID: r.NewID(), Kind: "qp", Args: []string{hx.HexList(ch)}})
+		}
+	}
+	// single-part messages with long content types and descriptions
+	for i, ct := range []string{"text/plain; format=flowed", "text/plain; format=flowed; delsp=yes; x-long-parameter=\"a value of some length that makes the field long\"",
+		"text/calendar; method=REQUEST; component=VEVENT; x-producer=\"some calendar software 1.2.3\"", "application/x-very-long-subtype-name-that-goes-on-and-on-and-on-and-on-and-on-and-on; p=1",
+		"text/html; x-a=1; x-b=2; x-c=3; x-d=4; x-e=5; x-f=6; x-g=7; x-h=8; x-i=9; x-j=10; x-k=11"} {
+		for j, desc := range []string{"", "a description", strings.Repeat("long description words ", 6)} {
+			runCase(r, hx.Case{ID: r.NewID(), Kind: "ctype", Args: []string{hx.Hex([]byte(ct)), []string{"quoted-printable", "base64", "8bit"}[(i+j)%3], hx.Hex([]byte(desc))}})
 		}
 	}
 	// multi-part messages: every ordered pair / triple of encodings over body parts and files; contents whose
